@@ -1859,4 +1859,19 @@ theorem matches_no_slash : ∀ (ast : Pat) (name : Bytes), Matches ast name →
       · exact hpre e
       · exact ih suf hm hns' e
 
+/-! ### `goMatch` (the fuel `len(pattern)+1` suffices) -/
+
+theorem goMatch_sound (pat name : Bytes) (h : goMatch pat name = .matched true) : ∃ ast, Parses pat ast ∧ Matches ast name :=
+  goMatchF_sound _ pat name h
+
+theorem goMatch_complete (pat name : Bytes) (ast : Pat) (hp : Parses pat ast) (hm : Matches ast name)
+    (hs : slash ∉ name) (hg : NoWide name ∨ FixedWidth ast) : goMatch pat name = .matched true :=
+  goMatchF_complete (pat.length + 1) pat name ast (by omega) hp hm hs hg
+
+theorem goMatch_total (pat name : Bytes) (ast : Pat) (hp : Parses pat ast) : ∃ b, goMatch pat name = .matched b :=
+  goMatchF_wf_total (pat.length + 1) pat name ast (by omega) hp
+
+theorem goMatch_fuel (pat name : Bytes) : goMatch pat name ≠ .outOfFuel :=
+  goMatchF_fuel (pat.length + 1) pat name (by omega)
+
 end Rare.C06.Glob
